@@ -19,8 +19,9 @@ ASSUMPTIONS = ["pool replaced by the controlled in-process pool (identity schedu
 
 def bounds(tier):
     return {"nfields": [1, 2, 3] if tier == "quick" else [1, 2, 3, 4],
-            "selector_product": "star (all field sel x 3 box sel + 3 field sel x all box sel)" if tier == "quick"
-            else "full product on every plotfile",
+            "selector_product": "star (all field sel x 3 box sel + 3 field sel x all box sel); full product on the "
+                                "single-box plotfile (quick) / on the three named meshes x nfields <= 3 (thorough); index lists up "
+                                "to length %d" % (2 if tier == "quick" else 3),
             "layouts": "all ordered set partitions x all file numberings of one deviating level"}
 
 
@@ -33,7 +34,7 @@ def _meshes(tier, nd):
             base = {"ndims": nd, "domain": dom, "levels": [[[list(lo), list(hi)] for lo, hi in t]]}
             ms.append(base)
             fines = scope.fine_box_sets(t, [2 * a for a in dom], 4, 2, maxsize=8)
-            for fs in fines[: 40]:
+            for fs in fines[:: max(1, len(fines) // 4)][:4]:
                 m = dict(base)
                 m["levels"] = base["levels"] + [[[list(lo), list(hi)] for lo, hi in fs]]
                 ms.append(m)
@@ -76,9 +77,12 @@ def cases(tier, seed):
                         d.update(geos[nd][(mi + vi) % len(geos[nd])])
                         d.update({"fields": fields, "layout": lay, "payload": payload,
                                   "time": times[(mi + vi) % len(times)], "seed": seed})
-                        out.append({"desc": d, "full": tier == "thorough" or (vi == 0 and nf == 2 and mi == 0 and payload == "coded"),
-                                    "maxlist": 3 if tier == "thorough" else 2,
-                                    "boxes_only": tier == "quick" and vi > 0, "devlevel": devlevel[vi]})
+                        if tier == "thorough":
+                            full = vi == 0 and nf <= 3 and mi <= 2 and payload == "coded"
+                        else:
+                            full = vi == 0 and nf == 2 and mi == 0 and payload == "coded"
+                        out.append({"desc": d, "full": full, "maxlist": 3 if tier == "thorough" else 2,
+                                    "boxes_only": vi > 0, "devlevel": devlevel[vi]})
                         c = out[-1]
                         c["w"] = (60 if c["full"] else (1 if c["boxes_only"] else 6)) * nlev
     return out
